@@ -12,6 +12,7 @@ and `schema v` does not raise (when given) and yields `w` (`w = v` without a sch
 -/
 import EdzedModel.Validate
 import EdzedProofs.Validate
+import EdzedProofs.ValidateTie
 import EdzedModel.Gen.Constants
 
 namespace Edzed.Validate
@@ -605,3 +606,151 @@ example : validate exCfg (Val.flt 1) = none ∧ validate exCfg (Val.int 3) = non
   decide +kernel
 
 end Edzed.Validate
+
+/-! ### tie to the source by translation
+
+`tools/py2lean_validate.py` regenerates `EdzedModel/Gen/TranslatedValidate.lean` from the CURRENT source of
+`_Validation.__init__/_validate`, `Input.__init__/init_from_value/_restore_state/_event_put` and
+`InputExp.__init__/cond_put/calc_output` on every run: each method becomes a program (statement order,
+conditions, try/except with its exception classes, early returns, raises and call arguments from the AST)
+over the object's attributes, with the calls it makes as primitives.  `ValidateTie.prims` gives the
+primitives their meaning (`value in frozenset`, `frozenset(collection)`, a user callable that returns or
+raises and is logged, `set_output`, `event('put')` reaching the handler); the theorems below say that the
+translated programs ARE the model's definitions, for every configuration, object state and value. -/
+namespace Edzed.TrTie
+open Edzed.Validate Edzed.ValidateTie
+open Edzed.Gen
+open Edzed.Gen.TrV hiding validate calcOutput
+
+/-- the translated `_validate` IS the model's `validateT` – the result (`w` returned / ValueError) and
+    the log of the calls of user code – on every object that carries the validators of `c` -/
+theorem translated_validate_is_model (c : Cfg) (o : Obj) (h : Agrees c o) (v : Val) :
+    TrV.validate prims v o =
+      ({ o with calls := o.calls ++ (validateT c v).2.map tagOf }, outcome (resultX (validateT c v).1)) :=
+  validate_is_model c o h v
+
+/-- … and for user callables that may raise ANY exception it is the exception-level reference
+    `validateX`: allowed → check → schema in this order, each only when present; a value not in the set
+    (or unhashable) and a falsy check result give ValueError; an exception of the check function leaves
+    `_validate` as it is; every `Exception` of the schema becomes ValueError; the schema's result is
+    returned whatever it is (also None) -/
+theorem translated_validate_is_reference (o : Obj) (v : Val) :
+    TrV.validate prims v o =
+      ({ o with calls := o.calls ++ (validateX o.allowed o.check o.schema v).2 },
+       outcome (validateX o.allowed o.check o.schema v).1) :=
+  validate_eq prims prims_contains prims_callUser v o
+
+/-- the reference restricted to the model's validators is the model -/
+theorem translated_validate_reference_is_model (c : Cfg) (v : Val) :
+    validateX c.allowed (c.check.map liftCheck) (c.schema.map liftSchema) v =
+      (resultX (validateT c v).1, (validateT c v).2.map tagOf) :=
+  validateX_model c v
+
+/-- a schema result None is a converted value like any other -/
+theorem translated_validate_schema_none_is_a_value (o : Obj) (s : Fn) (v : Val)
+    (ha : o.allowed = none) (hc : o.check = none) (hs : o.schema = some s) (hn : s v = .ok Val.none) :
+    (TrV.validate prims v o).2 = .ret Val.none := by
+  rw [translated_validate_is_reference, ha, hc, hs]
+  simp [validateX, hn, outcome]
+
+/-- an exception raised by the check function is not turned into a refusal by `_validate` -/
+theorem translated_validate_check_exception_propagates (o : Obj) (f : Fn) (v : Val) (k : PyExc)
+    (ha : o.allowed = none) (hc : o.check = some f) (hk : f v = .error k) :
+    (TrV.validate prims v o).2 = .raise k := by
+  rw [translated_validate_is_reference, ha, hc]
+  simp [validateX, hk, outcome]
+
+/-- the translated `_event_put` IS the model's put step: new output, return value (or the failure of
+    `set_output(UNDEF)`, which is outside the `try`) and the calls of user code -/
+theorem translated_validate_put_is_model (c : Cfg) (o : Obj) (h : Agrees c o) (v : Val) :
+    TrV.eventPut prims v o =
+      ({ o with calls := o.calls ++ (put c o.output v).calls.map tagOf, output := (put c o.output v).out },
+       putOutcome (put c o.output v).res) :=
+  eventPut_eq prims prims_contains prims_callUser prims_setOutput c o h v
+
+/-- the put handler with user callables that may raise anything -/
+theorem translated_validate_put_is_reference (o : Obj) (v : Val) :
+    TrV.eventPut prims v o =
+      match validateX o.allowed o.check o.schema v with
+      | (.ok w, cl) =>
+        if w.isUndef then ({ o with calls := o.calls ++ cl }, .raise "ValueError")
+        else ({ o with calls := o.calls ++ cl, output := store o.output w }, .ret (Val.bool true))
+      | (.error k, cl) =>
+        ({ o with calls := o.calls ++ cl }, if excIsA k "ValueError" then .ret (Val.bool false) else .raise k) :=
+  eventPut_eqX o v
+
+/-- `_Validation.__init__`: `schema` and `check` are stored as given; `_allowed` is None for None and
+    otherwise a frozenset COPY of the contents the caller's collection has at that moment (the snapshot;
+    TypeError for an unhashable member) -/
+theorem translated_validate_init_takes_snapshot (sc ch : Option Fn) (al : Option Coll) (kw : Val) (o : Obj) :
+    TrV.validationInit prims sc ch al kw o =
+      match al with
+      | none => ({ o with schema := sc, check := ch, allowed := none, initdef := kw }, .next ())
+      | some coll =>
+        if coll.items.all Val.hashable then
+          ({ o with schema := sc, check := ch, allowed := some coll.items, initdef := kw }, .next ())
+        else ({ o with schema := sc, check := ch }, .raise "TypeError") :=
+  validationInit_eq prims rfl rfl sc ch al kw o
+
+/-- `Input.__init__` IS the model's `construct` -/
+theorem translated_validate_input_init_is_model (c : Cfg) (initdef : Val) (o : Obj) :
+    TrV.inputInit prims (c.schema.map liftSchema) (c.check.map liftCheck) (collOf c) initdef o =
+      if c.allowedHashable then
+        ({ objInit c initdef o with calls := o.calls ++ (construct c initdef).2.map tagOf },
+         ctorOutcome (construct c initdef).1)
+      else
+        ({ o with schema := c.schema.map liftSchema, check := c.check.map liftCheck },
+         ctorOutcome (construct c initdef).1) :=
+  inputInit_eq c initdef o
+
+/-- `Input.init_from_value` and `_restore_state` (an alias) ARE the model's restoring / initialising put:
+    the value goes through the handler of the `put` event -/
+theorem translated_validate_restore_is_model (c : Cfg) (o : Obj) (h : Agrees c o) (hu : o.output = .undef)
+    (r : Val) :
+    TrV.inputRestoreState prims r o =
+      ({ o with calls := o.calls ++ (restorePut c (some r)).calls.map tagOf,
+                output := (restorePut c (some r)).out },
+       initOutcome (restorePut c (some r)).res) := by
+  rw [inputRestoreState_alias, inputInitFromValue_eq c o h r, hu]
+  rfl
+
+theorem translated_validate_init_from_value_is_model (c : Cfg) (o : Obj) (h : Agrees c o) (v : Val) :
+    TrV.inputInitFromValue prims v o =
+      ({ o with calls := o.calls ++ (put c o.output v).calls.map tagOf, output := (put c o.output v).out },
+       initOutcome (put c o.output v).res) :=
+  inputInitFromValue_eq c o h v
+
+/-- `InputExp.__init__` IS the model's `constructExp` -/
+theorem translated_validate_exp_init_is_model (c : Cfg) (initdef expired : Val) (o : Obj) :
+    (TrV.expInit prims (c.schema.map liftSchema) (c.check.map liftCheck) (collOf c) initdef expired o).2 =
+        expCtorOutcome (constructExp c initdef expired).1 ∧
+    (c.allowedHashable = true →
+      (TrV.expInit prims (c.schema.map liftSchema) (c.check.map liftCheck) (collOf c) initdef expired o).1.calls =
+        o.calls ++ (constructExp c initdef expired).2.map tagOf) ∧
+    (∀ inp e, (constructExp c initdef expired).1 = .ok (inp, e) →
+      (TrV.expInit prims (c.schema.map liftSchema) (c.check.map liftCheck) (collOf c) initdef expired o).1 =
+        { objInit c (initState initdef) o with
+          calls := o.calls ++ (constructExp c initdef expired).2.map tagOf,
+          sdataInput := if initdef.isUndef then o.sdataInput else inp,
+          expired := e }) :=
+  expInit_eq c initdef expired o _ rfl
+
+/-- `InputExp.cond_put` IS the validating part of the model's `putExp` -/
+theorem translated_validate_cond_put_is_model (e : ExpCfg) (s : ExpState) (o : Obj) (h : Agrees e.v o)
+    (v : Val) (hv : o.eventValue = some v) (hi : o.sdataInput = s.input) :
+    TrV.condPut prims o =
+      ({ o with calls := o.calls ++ (putExp e s v).2.2.map tagOf, sdataInput := (putExp e s v).1.input },
+       .ret (Val.bool (putExp e s v).2.1)) :=
+  condPut_eq e s o h v hv hi
+
+/-- `InputExp.calc_output` IS the model's `calcOutput` -/
+theorem translated_validate_calc_output_is_model (e : ExpCfg) (st : St) (input : Option Val) (o : Obj)
+    (hs : o.state = stName st) (hi : o.sdataInput = input) (he : o.expired = e.expired)
+    (hv : st = .valid → input.isSome = true) :
+    TrV.calcOutput prims o = (o, .ret (Validate.calcOutput e st input)) :=
+  calcOutput_eq e st input o hs hi he hv
+
+/-- non-vacuity: an object with the validators of `exCfg` (constructed by the translated `__init__`) -/
+example : Agrees exCfg (objInit exCfg (Val.int 1) {}) := objInit_agrees _ _ _
+
+end Edzed.TrTie
